@@ -104,6 +104,18 @@ fn open_commitment(commitment: &Commitment, value: &[u8]) -> bool {
     blake3::hash(value).as_bytes() == &commitment.0
 }
 
+/// The value a party commits to in the leaky AND check: its `H_i` followed by 16 bits for its id.
+///
+/// As in the coin tossing, the id makes the commitments of different parties distinct. Without it a
+/// peer could send our own commitment (and later our own opening) back to us, and the XOR of the
+/// two equal values is zero whatever the peer did before.
+fn hi_with_id(hi: u128, party: usize) -> [u8; 18] {
+    let mut buf = [0u8; 18];
+    buf[..16].copy_from_slice(&hi.to_be_bytes());
+    buf[16..].copy_from_slice(&(party as u16).to_be_bytes());
+    buf
+}
+
 /// Hashes a Vec<T> using blake3 and returns the resulting hash as `u128`.
 ///
 /// The hash is truncated to 128 bits to match the input size. Due to the truncation, the security
@@ -914,7 +926,7 @@ async fn flaand(
             hi[ll] ^= mk_zi.0 ^ ki_zk.0 ^ ki_xj_phi[k][ll];
         }
         hi[ll] ^= (xshares[ll].0 as u128 * phi[ll]) ^ (zshares[ll].0 as u128 * delta.0);
-        commhi.push(commit(&hi[ll].to_be_bytes()));
+        commhi.push(commit(&hi_with_id(hi[ll], i)));
     }
     drop(phi);
     drop(ki_xj_phi);
@@ -928,7 +940,7 @@ async fn flaand(
     let mut xor_all_hi = hi; // XOR for all parties, including p_own
     for k in (0..n).filter(|k| *k != i) {
         for (ll, (xh, hi_k)) in xor_all_hi.iter_mut().zip(hi_k[k].clone()).enumerate() {
-            if !open_commitment(&commhi_k[k][ll], &hi_k.to_be_bytes()) {
+            if !open_commitment(&commhi_k[k][ll], &hi_with_id(hi_k, k)) {
                 return Err(Error::CommitmentCouldNotBeOpened);
             }
             *xh ^= hi_k;
